@@ -52,6 +52,7 @@ type pair struct {
 	oldSrc string // grol source of the session that produced the previous state file
 	newSrc string // grol source of the session whose auto-save is interrupted (run after AutoLoad of the old file)
 	extras []extraFile
+	flags  []string // extra child flags for every session of this pair (e.g. maxlen=100)
 	// set for a session of a multi-save history: signature context ("after-<previous session's point>") and replay string
 	histCtx    string
 	replayCase string
@@ -69,6 +70,7 @@ type harness struct {
 	scratch string // parent of all scratch directories (removed at the end)
 	nDirs   int
 	strace  string
+	flags   []string // child flags of the pair being run (appended to every `session` invocation)
 }
 
 func (h *harness) mkdir() string {
@@ -111,6 +113,9 @@ func (h *harness) run(wrapper []string, env []string, killAfter time.Duration, a
 	h.c.Eval()
 	argv := append(append([]string{}, wrapper...), h.self, "child")
 	argv = append(argv, args...)
+	if len(args) > 0 && args[0] == "session" {
+		argv = append(argv, h.flags...)
+	}
 	cmd := exec.Command(argv[0], argv[1:]...)
 	cmd.Env = append(os.Environ(), env...)
 	cmd.Stderr = nil
@@ -298,6 +303,8 @@ func (h *harness) populate(p *pair) string {
 // prepare runs the two sessions without interference and records the old / new files and the write chunks.
 func (h *harness) prepare(p *pair) {
 	c := h.c
+	h.flags = p.flags
+	defer func() { h.flags = nil }()
 	dir := h.mkdir()
 	defer os.RemoveAll(dir)
 	if p.hasOld {
@@ -509,6 +516,8 @@ func (h *harness) scenario(p *pair, desc string) {
 
 // scenarioIn runs the session of p with scenario desc in an existing directory (one session of a history)
 func (h *harness) scenarioIn(p *pair, desc, dir string) {
+	h.flags = p.flags
+	defer func() { h.flags = nil }()
 	n := len(p.newChunks)
 	src := Hx([]byte(p.newSrc))
 	kind, arg, _ := strings.Cut(desc, ":")
@@ -862,6 +871,8 @@ func basePairs() []*pair {
 		{name: "many-to-many", hasOld: true, oldSrc: manyBindings("v", 40, 12, "ab"), newSrc: manyBindings("v", 7, 20, "xyz") + manyBindings("w", 5, 3, "q") + "del(v039)"},
 		{name: "large-values", hasOld: true, oldSrc: "s=\"0123456789abcdef\"*4096\nt=1", newSrc: "s=\"fedcba9876543210\"*4096\narr=[1,2,3,4,5,6,7,8]*700\nt=2"},
 		{name: "shrinking", hasOld: true, oldSrc: manyBindings("k", 12, 30, "old"), newSrc: "del(k000);del(k001);del(k002);del(k003);del(k004);del(k005);del(k006);del(k007);del(k008);del(k009);k011=1"},
+		// a value longer than the save limit is left out of the file (and nothing else is written for it)
+		{name: "over-limit", hasOld: true, oldSrc: "a=1\nc=0", newSrc: "c=3\nbig=\"y\"*300\nd=4\nfunc h(x){x}", flags: []string{"maxlen=100"}},
 		{name: "leftovers", hasOld: true, oldSrc: "a=1\nb=\"hello\"", newSrc: "a=3\nz=[4,5]",
 			extras: []extraFile{{".grol111.tmp", "a=0\nb=\"hel"}, {"notes.txt", "keep me\n"}, {".grol", "x"}}},
 	}
